@@ -194,6 +194,22 @@ func registerC18Oracles() {
 		}
 		return "", ""
 	})
+	// (rcode): ChallengeOwnership against a node (loopback, port 137) that answers with this rcode and its address
+	Oracle("c18.challenge_rcode", oracleChallengeRcode)
+	// (what): Stop/Close called twice, from two goroutines' worth of callers
+	Oracle("c18.stop_twice", func(a []Val) (string, string) {
+		what := int(a[0].Uint())
+		names := []string{"server", "udp_server", "tcp_server"}
+		s, err := c18Start([]int{4, 5, 3}[what])
+		if err != nil {
+			return "C18/harness", err.Error()
+		}
+		panicked, timedOut, _, pv := Guarded(3*time.Second, func() { s.Stop(); s.Stop() })
+		if panicked || timedOut {
+			return "C18/stop-twice-" + names[what], fmt.Sprintf("%s: second Stop: panic=%v hang=%v", names[what], pv, timedOut)
+		}
+		return "", ""
+	})
 	// (k seed)
 	Oracle("c18.llmnr_demux", oracleLlmnrDemux)
 	Oracle("c18.llmnr_query", oracleLlmnrQuery)
@@ -933,6 +949,48 @@ func oracleLlmnrQuery(a []Val) (string, string) {
 		if n != 0 {
 			return "C18/llmnr-query-leaks-channel", fmt.Sprintf("%d entries left in the query map", n)
 		}
+	}
+	return "", ""
+}
+
+// A fake node on 127.0.0.9:137 answers the challenge query with the given rcode and one record
+// carrying its own address.  Only rcode 3 (name error) means "the name is no longer owned".
+func oracleChallengeRcode(a []Val) (string, string) {
+	rc := uint16(a[0].Uint())
+	owner := net.IPv4(127, 0, 0, 9).To4()
+	node, err := net.ListenUDP("udp4", &net.UDPAddr{IP: owner, Port: nbtns.DefaultNBTNSUDPPort})
+	if err != nil {
+		return "", "" // port 137 not available here: nothing to observe
+	}
+	defer node.Close()
+	go func() {
+		buf := make([]byte, 2048)
+		for {
+			n, from, err := node.ReadFromUDP(buf)
+			if err != nil {
+				return
+			}
+			var q nbtns.NBTNSPacket
+			if _, err := q.Unmarshal(exact(buf[:n])); err != nil || len(q.Questions) == 0 {
+				continue
+			}
+			resp := &nbtns.NBTNSPacket{Header: nbtns.NBTNSHeader{TransactionID: q.Header.TransactionID, Flags: 0x8400 | rc, Answers: 1},
+				Answers: []nbtns.NBTNSResourceRecord{{Name: q.Questions[0].Name, Type: 0x20, Class: 1, TTL: 300, RDLength: 4, RData: owner}}}
+			if b, err := resp.Marshal(); err == nil {
+				node.WriteToUDP(b, from)
+			}
+		}
+	}()
+	t := nbtns.NewNetBIOSNameServer(true)
+	c := nbtns.NewNameChallenger(t, nbtns.NewPacketHandler(t))
+	var owned bool
+	var cerr error
+	_, timedOut, _, _ := Guarded(3*time.Second, func() { owned, cerr = c.ChallengeOwnership("CHALLENGED", owner) })
+	if timedOut || cerr != nil {
+		return "C18/challenge-no-answer", fmt.Sprintf("rcode %d: timeout=%v err=%v", rc, timedOut, cerr)
+	}
+	if want := rc != 3; owned != want {
+		return fmt.Sprintf("C18/challenge-rcode-%d", rc), fmt.Sprintf("the owner answered the challenge with rcode %d and its own address: ChallengeOwnership returned %v, want %v (only rcode 3 is a name error)", rc, owned, want)
 	}
 	return "", ""
 }
